@@ -8,10 +8,13 @@ Open Scope N_scope.
 
 Ltac splits := repeat match goal with |- _ /\ _ => split end.
 
+Section WithX.
+Variable X : list (nat * bytes).
+
 Definition kowned (st : hskip) : list nat := match kb st with Some s => [sblk s] | None => [] end.
 
 Record kinv (st : hskip) (e : env) : Prop := mkkinv {
-  kv_e : einv (kowned st) [] [] e;
+  kv_e : einv X (kowned st) [] [] e;
   kv_src : spos (ksrc st) <= len (sdata (ksrc st)) /\ kstart st + kn st <= spos (ksrc st);
   kv_buf : match kb st with
            | Some s => whole (wh (ew e)) s /\ 0 < scp s /\ kn st <= sln s
@@ -30,7 +33,7 @@ Record kinv (st : hskip) (e : env) : Prop := mkkinv {
 }.
 
 Lemma kinv_frame st e e' :
-  kinv st e -> einv (kowned st) [] [] e' -> frame (kowned st ++ [] ++ []) e e' -> kinv st e'.
+  kinv st e -> einv X (kowned st) [] [] e' -> frame (kowned st ++ [] ++ []) e e' -> kinv st e'.
 Proof.
   intros [Ie Is Ib Ic Ir] He [Hs [_ Hl]].
   assert (Hblk : forall b, In b (kowned st) -> block (wh (ew e')) b = block (wh (ew e)) b).
@@ -76,10 +79,10 @@ Proof.
     destruct (einv_write _ _ _ _ nb 0 v R1 (or_introl eq_refl) Hwb) as (V1 & V2 & V3 & [V4 V5]).
     set (e3 := e_write e2 nb 0 v) in *.
     assert (Hv2 : (sblk s < length (wh (ew e2)))%nat).
-    { destruct R1 as [_ [_ Sv _] _]. rewrite Forall_forall in Sv. apply Sv. cbn; tauto. }
+    { destruct (einv_sep3 _ _ _ _ R1) as [_ Sv _]. rewrite Forall_forall in Sv. apply Sv. cbn; tauto. }
     assert (Hvn : (nb < length (wh (ew e2)))%nat).
-    { destruct R1 as [_ [_ Sv _] _]. rewrite Forall_forall in Sv. apply Sv. cbn; tauto. }
-    assert (V1' : einv (sblk s :: [nb]) [] [] e3) by (eapply einv_perm; [|exact V1]; apply perm_swap).
+    { destruct (einv_sep3 _ _ _ _ R1) as [_ Sv _]. rewrite Forall_forall in Sv. apply Sv. cbn; tauto. }
+    assert (V1' : einv X (sblk s :: [nb]) [] [] e3) by (eapply einv_perm; [|exact V1]; apply perm_swap).
     assert (Hcp3 : scp s = len (block (wh (ew e3)) (sblk s))).
     { rewrite V5 by assumption. rewrite R2, Hblk1. assumption. }
     destruct (einv_free _ _ _ _ s V1' (or_introl eq_refl) W1 Hcp3) as (F1 & [F2 F3] & F4).
@@ -109,9 +112,9 @@ Proof. reflexivity. Qed.
 
 (* ---------- the ReadFull loop of SkipN ---------- *)
 Lemma readfull_inv b base n : forall fuel src e i src' e' i' er,
-  einv [b] [] [] e -> spos src <= len (sdata src) -> base + n <= len (block (wh (ew e)) b) -> i <= n ->
+  einv X [b] [] [] e -> spos src <= len (sdata src) -> base + n <= len (block (wh (ew e)) b) -> i <= n ->
   readfull fuel src e b base i n = (src', e', i', er) ->
-  einv [b] [] [] e' /\ sdata src' = sdata src /\ spos src' <= len (sdata src') /\
+  einv X [b] [] [] e' /\ sdata src' = sdata src /\ spos src' <= len (sdata src') /\
   i <= i' /\ i' <= n /\ spos src' = spos src + (i' - i) /\
   len (block (wh (ew e')) b) = len (block (wh (ew e)) b) /\
   rd (wh (ew e')) b 0 (base + i') = rd (wh (ew e)) b 0 (base + i) ++ seg_at (sdata src) (spos src) (i' - i).
@@ -122,7 +125,7 @@ Proof.
   - destruct (N.ltb_spec i n) as [Hlt|Hge].
     + destruct (einv_callback _ _ _ _ Hi) as (C1 & [C2 [_ C3]] & _).
       assert (Hv : (b < length (wh (ew e)))%nat).
-      { destruct Hi as [_ [_ Sv _] _]. inversion Sv; assumption. }
+      { destruct (einv_sep3 _ _ _ _ Hi) as [_ Sv _]. inversion Sv; assumption. }
       assert (Hblk0 : block (wh (ew (e_callback e))) b = block (wh (ew e)) b) by (apply C2; cbn; tauto).
       destruct (src_read src (n - i)) as [[bs er0] src1] eqn:Er.
       destruct (src_read_spec _ _ _ _ _ Hs Er) as (R1 & R2 & R3 & R4 & R5 & R6 & R7).
@@ -308,9 +311,8 @@ Proof.
 Qed.
 Lemma kinv_co st e l al adv padv : kinv st e -> kinv st (mkE (co_run (ew e) l) al adv padv (eev e)).
 Proof.
-  intros Hi. destruct (kv_e _ _ Hi) as [Wk Sp Mn].
-  destruct (co_run_spec l _ _ Wk Sp) as (A1 & A2 & A3 & A4).
-  eapply kinv_frame; [exact Hi| |split; assumption]. split; assumption.
+  intros Hi. destruct (einv_co _ _ _ _ _ l al adv padv (kv_e _ _ Hi)) as [A B].
+  eapply kinv_frame; eassumption.
 Qed.
 
 Lemma krun_step_inv st w tr s st' w' tr' o :
@@ -334,12 +336,14 @@ Proof.
     inversion E; subst; clear E. eapply IH; [exact Hr| |exact Er]. eapply krun_step_inv; eassumption.
 Qed.
 
-Lemma kinv_new src w : wok w -> spos src <= len (sdata src) -> kinv (new_skip src) (env_of w []).
+Lemma kinv_new src w : xok X w -> spos src <= len (sdata src) -> kinv (new_skip src) (env_of w []).
 Proof.
-  intros Wk Hs. split; cbn [new_skip kowned kb kn ksrc kres kstart]; try exact I; try reflexivity.
-  - exact (einv_init w Wk).
+  intros (Wk & Sx & Hx) Hs. split; cbn [new_skip kowned kb kn ksrc kres kstart]; try exact I; try reflexivity.
+  - exact (einv_init X w Wk Sx Hx).
   - split; [assumption|lia].
 Qed.
+
+End WithX.
 
 (* the result of the last Next still reads as the stream bytes it covers *)
 Definition result_intact (st : hskip) (w : world) : Prop :=
@@ -352,14 +356,14 @@ Theorem skipdec_result_stable src w0 h st w tr outs :
   wok w0 -> spos src <= len (sdata src) -> Forall kstep_wf h ->
   krun (new_skip src, w0, []) h = (st, w, tr, outs) -> result_intact st w.
 Proof.
-  intros Wk Hs Hwf E. pose proof (krun_inv _ _ _ _ _ _ _ _ Hwf (kinv_new src w0 Wk Hs) E) as Hi.
-  unfold result_intact. pose proof (kv_res _ _ Hi) as Hr. destruct (kres st); [exact (proj2 Hr)|exact I].
+  intros Wk Hs Hwf E. pose proof (krun_inv [] _ _ _ _ _ _ _ _ Hwf (kinv_new [] src w0 (xok_nil w0 Wk) Hs) E) as Hi.
+  unfold result_intact. pose proof (kv_res [] _ _ Hi) as Hr. destruct (kres st); [exact (proj2 Hr)|exact I].
 Qed.
 Theorem skipdec_trace_ok src w0 h st w tr outs :
   wok w0 -> spos src <= len (sdata src) -> Forall kstep_wf h ->
   krun (new_skip src, w0, []) h = (st, w, tr, outs) ->
   no_use_after_free (rev tr) /\ caller_untouched (rev tr) /\ frees_whole_blocks (rev tr).
 Proof.
-  intros Wk Hs Hwf E. pose proof (krun_inv _ _ _ _ _ _ _ _ Hwf (kinv_new src w0 Wk Hs) E) as Hi.
-  destruct (kv_e _ _ Hi) as [_ _ (m & Hm & _)]. eapply montr_spec; eassumption.
+  intros Wk Hs Hwf E. pose proof (krun_inv [] _ _ _ _ _ _ _ _ Hwf (kinv_new [] src w0 (xok_nil w0 Wk) Hs) E) as Hi.
+  destruct (kv_e [] _ _ Hi) as [_ _ (m & Hm & _) _]. eapply montr_spec; eassumption.
 Qed.
